@@ -1,9 +1,7 @@
-import re
 import string
-import functools
 from typing import Union
 
-from flamapy.core.models.ast import ASTOperation
+from flamapy.core.models.ast import ASTOperation, Node
 from flamapy.core.transformations import ModelToText
 from flamapy.metamodels.fm_metamodel.models import (
     Constraint,
@@ -145,18 +143,28 @@ class UVLWriter(ModelToText):
         return result
 
     @staticmethod
-    def _substitute_operator(str_constraint: str,
-                             operator: ASTOperation,
-                             new_operator: str) -> str:
-        return re.sub(rf"\b{operator.value}\b", new_operator, str_constraint)
+    def serialize_constraint(ctc: Constraint) -> str:
+        return UVLWriter._serialize_node(ctc.ast.root)
 
     @staticmethod
-    def serialize_constraint(ctc: Constraint) -> str:
-        str_constraint = ctc.ast.pretty_str()
-        return functools.reduce(lambda acc, op: UVLWriter._substitute_operator(acc,
-                                                                               op,
-                                                                               UVL_OPERATORS[op]),
-                                ASTOperation, str_constraint)
+    def _serialize_node(node: Node) -> str:
+        """Serialize the expression tree itself, so that operator spellings are never looked
+        for inside identifiers."""
+        if node.is_unique_term():
+            return safename(node.data) if isinstance(node.data, str) else str(node.data)
+        operator = UVL_OPERATORS[node.data]
+        left = UVLWriter._serialize_operand(node.left) if node.left is not None else ''
+        right = UVLWriter._serialize_operand(node.right) if node.right is not None else ''
+        if node.is_unary_op():
+            return f'{operator} {left}'
+        if node.is_aggregate_op():
+            return f'{operator}({left}, {right})' if node.right is not None else f'{operator}({left})'
+        return f'{left} {operator} {right}'
+
+    @staticmethod
+    def _serialize_operand(node: Node) -> str:
+        result = UVLWriter._serialize_node(node)
+        return f'({result})' if node.is_op() and node.is_binary_op() else result
 
 
 def safename(name: str) -> str:
